@@ -34,7 +34,7 @@ def required_buckets(tier):
         for p in PREF:
             req.append(f'C14/quantity/{p or "-"}{b}')
     req += ['C14/quantity/-U', 'C14/conc/table', 'C14/conc/percent/v/v', 'C14/conc/percent/w/w', 'C14/conc/percent/w/v',
-            'C14/conc/M', 'C14/conc/m', 'C14/conc/denominator_value', 'C14/api/container', 'C14/api/transfer',
+            'C14/conc/M', 'C14/conc/m', 'C14/conc/denominator_value', 'C14/api/container', 'C14/api/transfer', 'C14/api/cross_numerator/create_solution_from_container', 'C14/api/cross_numerator/dilute',
             'C14/api/fill_to', 'C14/api/create_solution', 'C14/api/create_solution_multi', 'C14/api/capacity', 'C14/api/dilute']
     for fam in ('missing_space', 'double_space', 'leading_space', 'trailing_space', 'unknown_unit', 'unknown_prefix',
                 'wrong_case', 'missing_number', 'non_numeric', 'extra_tokens', 'empty', 'wrong_dimension'):
@@ -298,6 +298,33 @@ def api(rng, case, idx):
                 gd = [r for s, r in dils if not isinstance(r, Exception)]
                 if (0 < len(gd) < len(dils)) or any(same(gd[0], g, 50.0) for g in gd[1:]):
                     M.violate(['C14'], 'PARSE', 'C14:equivalent_concentrations_dilute_differently', {'spellings': [s for s, r in dils]})
+                # ---- the same ratio written per litre in moles or in grams of this solute (x MW), per mL, in percent w/v:
+                #      interchangeable at every entry point that accepts a concentration, with pure and container diluents
+                mw = solids[0].mol_weight
+                ch = cM / 2
+                cross = [f'{ch!r} M', f'{ch * 1e3!r} mM', f'{ch * mw!r} g/L', f'{ch * mw!r} mg/mL', f'{ch * mw * 1e3!r} ug/mL',
+                         f'{ch * mw * 10!r} mg/10 mL']
+                if R.cfg().wv_units == 'g/mL':
+                    cross.append(f'{ch * mw / 10!r} %w/v')
+                diluent = C('diluent', initial_contents=[(liq, '50 mL'), (solids[0], f'{ch * 10!r} mmol')])
+                entries = (('create_solution', lambda s_: C.create_solution(solids[0], liq, 'x', concentration=s_, total_quantity='10 mL')),
+                           ('dilute', lambda s_: stock.dilute(solids[0], s_, liq)),
+                           ('create_solution_from', lambda s_: C.create_solution_from(stock, solids[0], s_, liq, '5 mL', 'y')[-1]),
+                           ('create_solution_from_container', lambda s_: C.create_solution_from(stock, solids[0], s_, diluent, '5 mL', 'y')[-1]))
+                for entry, call in entries:
+                    outs = []
+                    for s_ in cross:
+                        try:
+                            outs.append((s_, {k.name: v for k, v in call(s_).contents.items()}))
+                        except Exception as e:   # noqa
+                            outs.append((s_, e))
+                    M.count('PARSE.api_equivalence')
+                    M.bucket(f'C14/api/cross_numerator/{entry}')
+                    good_ = [o for l_, o in outs if not isinstance(o, Exception)]
+                    differ = any(abs(g.get(k, 0.0) - good_[0][k]) > 1e-6 * abs(good_[0][k]) + 1e-6 for g in good_[1:] for k in good_[0])
+                    if (0 < len(good_) < len(outs)) or differ:
+                        M.violate(['C14'], 'PARSE', f'C14:same_ratio_in_moles_or_grams_differs:{entry}',
+                                  {'calls': [(l_, repr(o)[:160]) for l_, o in outs], 'mol_weight': mw})
         # ---- several solutes, each with its own spelling (different numerators, denominators, molar / molal / percent):
         #      every string must mean what it says in the solution that is built (SOLN monitor) and equivalent lists agree
         if len(solids) >= 1:
